@@ -283,6 +283,7 @@ def run_h2(prop, tier, seed, report):
                                   "schedule": spec, "trace_tail": lines[-40:]})
     report["h2"] = stats
     viols, seen = [], set()
+    fails = sorted(fails, key=lambda f: 0 if f["kind"] in ("RT", "deadline") else 1)
     for f in fails:
         key = (f["kind"], re.sub(r"\d+", "#", f["message"])[:80])
         if key in seen:
@@ -297,6 +298,7 @@ def run_h2(prop, tier, seed, report):
                 "stuck": "an operation is blocked for ever although its counterpart finished",
                 "ledger": "a tagged value was not received / destroyed / handed back exactly once",
                 "deadline": "a timed call reported Timeout before its deadline",
+                "RT": "a realtime call did not give up after one failed attempt at the internal lock",
                 "corrupt": "a payload arrived corrupted"}[f["kind"]]
         viols.append({"witness": True, "suite": "H2", "kind": f["kind"], "program": f["program"], "schedule": f["schedule"],
                       "monitor": ["%s: %s" % (what, f["message"])], "trace_tail": f["trace_tail"],
